@@ -180,7 +180,7 @@ type Con struct {
 // Ref is something standing where the library accepts "a type": a type name, a
 // constraint, or an already built validator.
 //
-//	Kind: name | con | inline | defsym | defval | bad
+//	Kind: name | con | inline | defsym | defval | letsym | paramsym | bad
 type Ref struct {
 	Kind   string  `json:"kind"`
 	Name   string  `json:"name,omitempty"` // Kind name
@@ -188,6 +188,12 @@ type Ref struct {
 	Con    *Con    `json:"con,omitempty"`    // Kind con
 	Schema *Schema `json:"schema,omitempty"` // Kind inline (make-validator in place), defsym ('name of an earlier s:deftype), defval (bare symbol of an earlier s:deftype)
 	Bad    string  `json:"bad,omitempty"`    // Kind bad: malformed source text
+	// Kind letsym / paramsym: Schema is a validator bound LOCALLY (by a let
+	// around the construction of the top validator / as a parameter of a
+	// function that constructs it) and referenced by quoted symbol.  Decoy,
+	// when set, is a different validator bound GLOBALLY (s:deftype) under the
+	// same name: the quoted name must still mean the local one.
+	Decoy *Schema `json:"decoy,omitempty"`
 }
 
 // Walk visits every constraint of the schema (pre-order) with its nesting depth.
